@@ -904,6 +904,17 @@ fn gen_c06(r: &mut Rng, seed: u64, idx: u64) -> Scenario {
         opts.crash = Some(crash_spec(r, tid, rsp, exe.base + exe.image.text_off + 0x300));
         tags.push(if ti >= 20 { "crash-late-thread".into() } else { "crash".into() });
     }
+    if !sweep && r.chance(1, 10) {
+        // a thread running on a stack below the executable (MAP_32BIT / fixed low mapping)
+        let ti = r.below(n as u64) as usize;
+        let pages = r.range(1, 8);
+        let guard = b.add_low(0x1000, "---p", 0, 5);
+        let st = guard + 0x1000;
+        b.world.regions.push(RegionSpec { start: st, len: pages * 0x1000, perms: "rw-p".into(), offset: 0, inode: 0, name: B(Vec::new()), deleted: false, content: Content::Pattern(r.next()) });
+        b.world.regions.sort_by_key(|g| g.start);
+        b.world.threads[ti].regs[R_RSP] = st + r.below(pages * 512) * 8;
+        tags.push("stack-below-executable".into());
+    }
     if !sweep && r.chance(1, 12) {
         zombie_leader(r, &mut b, &mut opts, &mut tags);
     }
@@ -934,7 +945,17 @@ fn gen_c07(r: &mut Rng, seed: u64) -> Scenario {
             _ => r.range(1, 20000),
         };
         let pages = (len + 0xfff) / 0x1000 + 1;
-        let start = b.add_anon(pages * 0x1000, "rw-p", r.next(), 1);
+        // private pages the target itself cannot read are still part of its memory (the writer
+        // reaches them through /proc/pid/mem or ptrace)
+        let perms = match r.below(10) {
+            0 => "-w-p",
+            1 => "---p",
+            _ => "rw-p",
+        };
+        if perms != "rw-p" && !tags.contains(&"app-unreadable-perms".to_string()) {
+            tags.push("app-unreadable-perms".into());
+        }
+        let start = b.add_anon(pages * 0x1000, perms, r.next(), 1);
         let ptr = match r.below(6) {
             0 => start,
             1 => start + pages * 0x1000 - len,     // ends exactly at the mapping end (hole follows)
@@ -962,7 +983,9 @@ fn gen_c07(r: &mut Rng, seed: u64) -> Scenario {
         let adj_b = b.add_anon(0x2000, "r-xp", r.next(), 0);
         let _ = adj_a;
         let gapped: Option<u64> = b.modules.iter().find(|m| m.image.data_vaddr > m.image.data_off).map(|m| m.base + m.image.text_off + m.image.text_len);
+        let low: Option<u64> = if r.chance(1, 4) { Some(b.add_low(0x2000, "r-xp", r.next(), r.below(4))) } else { None };
         let (rip, pos) = match r.below(13) {
+            6 | 7 if low.is_some() => (low.unwrap() + *r.pick(&[0u64, 100, 0x1000, 0x1fff]), "below-executable"),
             11 | 12 if gapped.is_some() => (gapped.unwrap() - 1 - r.below(120), "before-reserved-gap"),
             8 => (adj_b, "adjacent-start"),
             9 => (adj_b - 1, "adjacent-end-1"),
@@ -1006,7 +1029,21 @@ fn gen_c20(r: &mut Rng, seed: u64) -> Scenario {
     let adj_a = b.add_anon(0x2000, "r--p", r.next(), 3);
     let adj_b = b.add_anon(0x2000, "rw-p", r.next(), 0);
     // principal mapping: a library, the exe, an anonymous region, or nothing
+    let low: Option<u64> = if r.chance(1, 4) { Some(b.add_low(0x3000, *r.pick(&["r-xp", "rw-p"]), r.next(), r.below(4))) } else { None };
+    if low.is_some() {
+        tags.push("mapped-below-executable".into());
+    }
+    if r.chance(1, 3) {
+        opts.sanitize = true;
+        tags.push("sanitize".into());
+    }
     let pm: Option<(u64, u64)> = match r.below(11) {
+        2 | 3 if low.is_some() => {
+            let lo = low.unwrap();
+            opts.principal = Some(lo + r.below(0x3000));
+            tags.push("principal-below-executable".into());
+            Some((lo, lo + 0x3000))
+        }
         8 => {
             // first byte of a mapping that directly follows another one
             opts.principal = Some(adj_b);
@@ -1704,6 +1741,14 @@ fn gen_c14(r: &mut Rng, seed: u64) -> Scenario {
     b.world.fds.clear();
     let mut spec = lib_spec(r, true, 0);
     let mut tags = Vec::new();
+    // a non-position-independent program image (ET_EXEC): every virtual address in it is absolute
+    // (link base 0x400000) and differs from the offset in the file; such images carry no SONAME
+    let non_pie = r.chance(1, 6);
+    if non_pie {
+        spec.link_base = 0x40_0000;
+        spec.soname = None;
+        tags.push("non-pie".into());
+    }
     if r.chance(1, 4) && spec.sections {
         spec.sections_at_end = true;
         tags.push("sections-unmapped".to_string());
@@ -1715,7 +1760,7 @@ fn gen_c14(r: &mut Rng, seed: u64) -> Scenario {
     tags.push(format!("so{}", spec.soname.is_some() as u8));
     tags.push(format!("sec{}", spec.sections as u8));
     let img = crate::elfgen::build(&spec);
-    let base = LIB_BASE + 0x4000_0000;
+    let base = if non_pie { 0x40_0000 } else { LIB_BASE + 0x4000_0000 };
     let path = "/opt/c14/libtarget.so.1.2.3";
     let mut file = img.file.clone();
     let mut well_formed = true;
